@@ -31,10 +31,24 @@ variable (c : ShCfg)
 theorem wb_route (s : ShState) (x : BusIn) (j : Nat) :
     let o := Shared.out c s x
     let own := x.ms s.grant
-    (o.toS j).cyc = (own.cyc && c.dec j own.adr) ∧
-    (o.toS j).stb = own.stb ∧ (o.toS j).we = own.we ∧ (o.toS j).adr = own.adr ∧
+    (o.toS j).cyc = (own.cyc && c.dec j (c.busAdr own.adr)) ∧
+    (o.toS j).stb = own.stb ∧ (o.toS j).we = own.we ∧ (o.toS j).adr = c.busAdr own.adr ∧
     (o.toS j).datW = own.datW ∧ (o.toS j).sel = own.sel ∧ (o.toS j).cti = own.cti ∧ (o.toS j).bte = own.bte := by
   simp [Shared.out, Shared.bus, Shared.sel]
+
+/-- **Masters of different `adr_width`.**  The shared bus is as wide as the widest master, so the address of an
+    owner that respects its own `adr_width` (listed in `c.aws`) is neither truncated nor altered: `wb_route` then
+    reads "slave `j` sees `cyc` iff the owner drives `cyc` and `dec j` matches the owner's address", and the slave
+    sees exactly that address.  (Sizing the bus from any single master instead — seeded change C06-r2m3 — breaks
+    this for the wider masters.) -/
+theorem wb_route_exact (s : ShState) (x : BusIn) (j : Nat) (w : Nat) (hw : w ∈ c.aws)
+    (hfit : (x.ms s.grant).adr < 2 ^ w) :
+    let o := Shared.out c s x
+    let own := x.ms s.grant
+    (o.toS j).cyc = (own.cyc && c.dec j own.adr) ∧ (o.toS j).adr = own.adr ∧
+    (Shared.bus c s x).adr = own.adr := by
+  have h := c.busAdr_of_fits w _ hw hfit
+  simp [Shared.out, Shared.bus, Shared.sel, h]
 
 /-- With pairwise-disjoint decoders at most one slave sees the cycle. -/
 theorem wb_route_one_slave (hd : DisjointDec c.m c.dec) (s : ShState) (x : BusIn) (j k : Nat)
@@ -45,9 +59,9 @@ theorem wb_route_one_slave (hd : DisjointDec c.m c.dec) (s : ShState) (x : BusIn
 
 /-- A cycle whose address matches no decoder is presented to no slave. -/
 theorem wb_route_none (s : ShState) (x : BusIn)
-    (hnone : ∀ j, j < c.m → c.dec j (x.ms s.grant).adr = false) (j : Nat) (hj : j < c.m) :
+    (hnone : ∀ j, j < c.m → c.dec j (Shared.bus c s x).adr = false) (j : Nat) (hj : j < c.m) :
     ((Shared.out c s x).toS j).cyc = false := by
-  simp [Shared.out, Shared.bus, Shared.sel, hnone j hj]
+  simp [Shared.out, Shared.sel, hnone j hj]
 
 /-- The owner is always one of the masters: in every reachable state `grant < n`. -/
 theorem wb_owner_is_master (hn : 0 < c.n) (ins : List BusIn) : ((Shared.machine c).run ins).grant < c.n :=
@@ -70,7 +84,7 @@ theorem wb_answer_owner_only (s : ShState) (x : BusIn) (i : Nat) :
 /-- Slaves that answer only presented strobes, disjoint decoders: only the selected slave can be answering. -/
 theorem wb_only_selected_answers (hd : DisjointDec c.m c.dec) (s : ShState) (x : BusIn)
     (hb : SlavesBehaved c.m (Shared.out c s x) x) (j : Nat) (hj : j < c.m)
-    (hsel : c.dec j (x.ms s.grant).adr = true) (k : Nat) (hk : k < c.m) (hne : k ≠ j) : sTerm x k = false := by
+    (hsel : c.dec j (Shared.bus c s x).adr = true) (k : Nat) (hk : k < c.m) (hne : k ≠ j) : sTerm x k = false := by
   cases h : sTerm x k
   · rfl
   · have := (hb k hk h).1
@@ -80,7 +94,7 @@ theorem wb_only_selected_answers (hd : DisjointDec c.m c.dec) (s : ShState) (x :
 /-- … then the owner's `ack`/`err` are exactly the selected slave's (or the timeout's). -/
 theorem wb_answer_selected (hd : DisjointDec c.m c.dec) (s : ShState) (x : BusIn)
     (hb : SlavesBehaved c.m (Shared.out c s x) x) (j : Nat) (hj : j < c.m)
-    (hsel : c.dec j (x.ms s.grant).adr = true) :
+    (hsel : c.dec j (Shared.bus c s x).adr = true) :
     let o := Shared.out c s x
     (o.toM s.grant).ack = (Shared.done c s || (x.ss j).ack) ∧ (o.toM s.grant).err = (x.ss j).err := by
   have hothers := wb_only_selected_answers c hd s x hb j hj hsel
@@ -93,15 +107,15 @@ theorem wb_answer_selected (hd : DisjointDec c.m c.dec) (s : ShState) (x : BusIn
 /-- Unregistered decoder: every acknowledge carries the selected slave's read data (all masters see the shared
     `dat_r`; it is meaningful for the owner, the only one that sees `ack`). -/
 theorem wb_dat_r (hd : DisjointDec c.m c.dec) (hreg : c.reg = false) (s : ShState) (x : BusIn)
-    (j : Nat) (hj : j < c.m) (hsel : c.dec j (x.ms s.grant).adr = true) (hto : Shared.done c s = false) (i : Nat) :
+    (j : Nat) (hj : j < c.m) (hsel : c.dec j (Shared.bus c s x).adr = true) (hto : Shared.done c s = false) (i : Nat) :
     ((Shared.out c s x).toM i).datR = (x.ss j).datR := by
   have : Shared.decDat c s x = (x.ss j).datR := by
     unfold Shared.decDat
     rw [orDat_unique hj]
-    · simp [gate, Shared.selMux, hreg, Shared.sel, Shared.bus, hsel]
+    · simp [gate, Shared.selMux, hreg, Shared.sel, hsel]
     · intro k hk hne
-      cases hs : c.dec k (x.ms s.grant).adr
-      · simp [gate, Shared.selMux, hreg, Shared.sel, Shared.bus, hs]
+      cases hs : c.dec k (Shared.bus c s x).adr
+      · simp [gate, Shared.selMux, hreg, Shared.sel, hs]
       · exact absurd (hd _ k j hk hj hs hsel) hne
   simp [Shared.out, Shared.busDat, hto, this]
 
@@ -114,12 +128,12 @@ theorem wb_dat_r (hd : DisjointDec c.m c.dec) (hreg : c.reg = false) (s : ShStat
 theorem wb_dat_r_registered_partial (hd : DisjointDec c.m c.dec) (hreg : c.reg = true)
     (s : ShState) (x₁ x₂ : BusIn)
     (hsame : ∀ k, k < c.m →
-      c.dec k (x₁.ms s.grant).adr = c.dec k (x₂.ms (Shared.next c s x₁).grant).adr)
-    (j : Nat) (hj : j < c.m) (hsel : c.dec j (x₂.ms (Shared.next c s x₁).grant).adr = true)
+      c.dec k (Shared.bus c s x₁).adr = c.dec k (Shared.bus c (Shared.next c s x₁) x₂).adr)
+    (j : Nat) (hj : j < c.m) (hsel : c.dec j (Shared.bus c (Shared.next c s x₁) x₂).adr = true)
     (hto : Shared.done c (Shared.next c s x₁) = false) (i : Nat) :
     ((Shared.out c (Shared.next c s x₁) x₂).toM i).datR = (x₂.ss j).datR := by
   have hselR : ∀ k, k < c.m → Shared.selMux c (Shared.next c s x₁) x₂ k =
-      c.dec k (x₂.ms (Shared.next c s x₁).grant).adr := by
+      c.dec k (Shared.bus c (Shared.next c s x₁) x₂).adr := by
     intro k hk
     unfold Shared.selMux
     simp only [hreg, if_true]
@@ -132,7 +146,7 @@ theorem wb_dat_r_registered_partial (hd : DisjointDec c.m c.dec) (hreg : c.reg =
     · simp [gate, hselR j hj, hsel]
     · intro k hk hne
       rw [hselR k hk]
-      cases hs : c.dec k (x₂.ms (Shared.next c s x₁).grant).adr
+      cases hs : c.dec k (Shared.bus c (Shared.next c s x₁) x₂).adr
       · simp [gate]
       · exact absurd (hd _ k j hk hj hs hsel) hne
   simp [Shared.out, Shared.busDat, hto, this]
@@ -175,12 +189,12 @@ theorem wb_one_termination (hd : DisjointDec c.m c.dec) (s : ShState) (x : BusIn
     (hb : SlavesBehaved c.m (Shared.out c s x) x) (hto : Shared.done c s = false) :
     let o := Shared.out c s x
     (∀ i, mTerm o i = true ↔
-      (s.grant = i ∧ ∃ j, j < c.m ∧ c.dec j (x.ms i).adr = true ∧ (x.ms i).cyc = true ∧ (x.ms i).stb = true ∧
+      (s.grant = i ∧ ∃ j, j < c.m ∧ c.dec j (c.busAdr (x.ms i).adr) = true ∧ (x.ms i).cyc = true ∧ (x.ms i).stb = true ∧
         sTerm x j = true)) ∧
     (∀ j, j < c.m → sTerm x j = true →
       mTerm o s.grant = true ∧ (∀ i, mTerm o i = true → i = s.grant) ∧ (∀ k, k < c.m → sTerm x k = true → k = j)) := by
   have key : ∀ j, j < c.m → sTerm x j = true →
-      c.dec j (x.ms s.grant).adr = true ∧ (x.ms s.grant).cyc = true ∧ (x.ms s.grant).stb = true := by
+      c.dec j (Shared.bus c s x).adr = true ∧ (x.ms s.grant).cyc = true ∧ (x.ms s.grant).stb = true := by
     intro j hj h
     have := hb j hj h
     simp [Shared.out, Shared.bus, Shared.sel] at this
@@ -277,7 +291,7 @@ def termsSeen (i : Nat) (s : ShState) : List BusIn → Nat
 def termsIssued (i : Nat) (s : ShState) : List BusIn → Nat
   | [] => 0
   | x :: rest =>
-    (if s.grant = i ∧ ∃ j, j < c.m ∧ c.dec j (x.ms i).adr = true ∧ (x.ms i).cyc = true ∧ (x.ms i).stb = true ∧
+    (if s.grant = i ∧ ∃ j, j < c.m ∧ c.dec j (c.busAdr (x.ms i).adr) = true ∧ (x.ms i).cyc = true ∧ (x.ms i).stb = true ∧
         sTerm x j = true then 1 else 0) + termsIssued i (Shared.next c s x) rest
 
 /-- Every cycle of the run satisfies the slave-side environment assumption. -/
@@ -371,6 +385,15 @@ example :
     · decide
   · intro j hj h
     simp [sTerm, xA'] at h
+
+/-- Masters of different address width (master 0: 1 bit, master 1: 2 bits, listed narrow first): the wide master's
+    address 2 is above the narrow master's range; it still selects slave 1 and arrives unchanged. -/
+example :
+    let c : ShCfg := { cfgA with aws := [1, 2] }
+    let s : ShState := { Shared.init c with grant := 1 }
+    let x : BusIn := { ms := fun i => if i = 1 then { cyc := true, stb := true, adr := 2 } else {}, ss := fun _ => {} }
+    c.busWidth = some 2 ∧ ((Shared.out c s x).toS 1).cyc = true ∧ ((Shared.out c s x).toS 0).cyc = false ∧
+    ((Shared.out c s x).toS 1).adr = 2 := by decide
 
 /-- 1 master × 2 slaves with `register=True`. -/
 def cfgR : ShCfg := { n := 1, m := 2, dec := fun j a => (a >>> 1) == j, reg := true, timeout := none, dw := 8 }
